@@ -88,7 +88,7 @@ static int run_env(const char * var, const char * val, int * nw_out) {
     if (val) setenv(var, val, 1); else unsetenv(var);
     if (strcmp(var, "MYTH_NUM_WORKERS")) setenv("MYTH_NUM_WORKERS", "2", 1);
     if (!strcmp(var, "MYTH_CPU_LIST")) setenv("MYTH_BIND_WORKERS", "1", 1);
-    alarm(20);
+    alarm(120);
     myth_thread_t t = myth_create(nop, (void *)5); void * r = 0; myth_join(t, &r);
     int nw = myth_get_num_workers(), wn = myth_get_worker_num();
     if (r != (void *)5 || wn < 0 || wn >= nw) nw = -7;
@@ -144,7 +144,7 @@ static void start_hist(inflight_t * f, const int * ops, int n) {
   f->n = n; memcpy(f->ops, ops, sizeof(int) * n);
   pid_t pid = fork();
   if (pid == 0) {
-    close(pfd[0]); alarm(30);
+    close(pfd[0]); alarm(180);
     setenv("MYTH_NUM_WORKERS", "2", 1);
     char m[300] = ""; int bad = 0, inited = 0, nw = 0, dflt = 2;   /* dflt: what the global attributes currently say */
     for (int i = 0; i < n && !bad; i++) {
@@ -193,7 +193,7 @@ static void hist_all(int depth) {
   /* every worker count 1..64 once */
   for (int nw = 1; nw <= 64; nw++) {
     pid_t pid = fork();
-    if (pid == 0) { alarm(30); myth_globalattr_t ga[1]; myth_globalattr_init(ga); myth_globalattr_set_n_workers(ga, nw); myth_globalattr_set_bind_workers(ga, 0); myth_init_ex(ga);
+    if (pid == 0) { alarm(180); myth_globalattr_t ga[1]; myth_globalattr_init(ga); myth_globalattr_set_n_workers(ga, nw); myth_globalattr_set_bind_workers(ga, 0); myth_init_ex(ga);
       int ok = myth_get_num_workers() == nw; myth_thread_t t = myth_create(nop, 0); myth_join(t, 0); int w = myth_get_worker_num(); ok = ok && w >= 0 && w < nw; myth_fini(); ok = ok && count_os_threads() == 1; _exit(ok ? 0 : 1); }
     int st; waitpid(pid, &st, 0); SQ.states++; SQ.evaluations++; SQ.transitions += 4;
     if (!WIFEXITED(st) || WEXITSTATUS(st)) { char key[60]; snprintf(key, sizeof key, "n_workers=%d via attribute", nw); sq_found(key, "", "init/run/fini with %d workers failed", nw); }
